@@ -33,7 +33,7 @@ def gen_case(seed):
             if x < 0.40: ops.append(f"set {c} {xs(r.choice(KEYS))} {js(val())}")
             elif x < 0.58: ops.append(f"cset {c} {xs(r.choice(KEYS))} {js(val())} {r.choice([0, 0, 1, 1, 2])}")
             elif x < 0.62: ops.append(f"del {c} {xs(r.choice(KEYS))}")
-            elif x < 0.66: ops.append(f"churn {c} {r.randint(2, 12)} {xs(r.choice(['a/b', 'b', 'g/x']))}")
+            elif x < 0.66: ops.append(f"{r.choice(['churn', 'churnd'])} {c} {r.randint(2, 12)} {xs(r.choice(['a/b', 'b', 'g/x']))}")
             elif x < 0.72: ops.append(f"pdel {c} {xs(r.choice(PATS))}")
             elif x < 0.82: ops.append(f"set {c} {xs(gg(c))} {js([r.choice(PATS + [f'own{c}/#']) for _ in range(r.randint(0, 2))])}")
             elif x < 0.92: ops.append(f"set {c} {xs(lw(c))} {js([{'key': r.choice([f'own{c}/x', f'own{c}/y/z', f'lwz{c}']), 'value': val()} for _ in range(r.randint(0, 2))])}")
